@@ -356,6 +356,8 @@ def api_op(glog, reader, op, cap):
             it = reader.records(P, reverse=True)
         elif mode == "offset":
             it = reader.records(P, offset=arg)
+        elif mode == "revoffset":  # backwards from record `arg` down to the first record
+            it = reader.records(P, offset=arg, reverse=True)
         elif mode == "head":
             it = itertools.islice(reader.records(P), arg)
         elif mode == "partial":  # a forward generator abandoned after `arg` records
@@ -467,6 +469,8 @@ def evaluate(env, calls, plan):
     def q(pfx, mode, arg, prio):
         if mode == "partial":
             mode = "head"
+        if mode == "revoffset":  # derived in `oracle` from the model's forward selection
+            mode = "forward"
         k = (pfx, mode, mode_arg(mode, arg), prio)
         if k not in queries:
             queries[k] = len(lines)
@@ -526,6 +530,9 @@ def evaluate(env, calls, plan):
                         "tie_only": True})
 
     def oracle(pfx, mode, arg, prio):
+        if mode == "revoffset":  # reverse of the forward selection cut after record k (no model mode of its own)
+            k = arg + n if arg < 0 else arg
+            return [i for i in reversed(oracle(pfx, "forward", 0, prio)) if i <= k]
         r = res[queries[q(pfx, mode, arg, prio)]]
         idx_s, ok = r.split()
         idx = [] if idx_s == "-" else [int(x) for x in idx_s.split(",")]
@@ -618,7 +625,7 @@ def _opstr(op):
     if op[0] == "len":
         return "__len__()"
     m, a, p = op
-    return {"forward": f"records({p})", "reverse": f"records({p}, reverse=True)", "offset": f"records({p}, offset={a})",
+    return {"forward": f"records({p})", "reverse": f"records({p}, reverse=True)", "offset": f"records({p}, offset={a})", "revoffset": f"records({p}, offset={a}, reverse=True)",
             "head": f"islice(records({p}), {a})", "partial": f"islice(records({p}), {a})"}[m]
 
 
@@ -648,8 +655,8 @@ def _probe_variants(d, L, wide):
     def clip(o):
         if o[0] == "len":
             return ("len",)
-        if o[0] == "offset":
-            return ("offset", max(-L, min(o[1], L - 1)) if L else 0, 8)
+        if o[0] in ("offset", "revoffset"):
+            return (o[0], max(-L, min(o[1], L - 1)) if L else 0, 8)
         return (o[0], min(o[1], L + 1), 8)
 
     if layer == "api":
@@ -841,6 +848,7 @@ def full_plan(n, containers, rng=None, hr_every=1):
         for prio in THRESHOLDS:
             probes = [("forward", 0), ("reverse", 0)]
             probes += [("offset", a) for a in (range(-n, n) if n else [0])]
+            probes += [("revoffset", a) for a in range(-n, n)]
             probes += [("head", a) for a in range(0, n + 3)]
             for mode, a in probes:
                 plan.append(("api", pfx, containers[k % len(containers)], [(mode, a, prio)]))
